@@ -28,6 +28,11 @@ def work(slot_names):
         subprocess.run('git checkout -q -- . && git clean -fdq', cwd=wt, shell=True)
         r = subprocess.run(['git', 'apply', os.path.join(ROOT, 'seeded', n, 'patch.diff')], cwd=wt, capture_output=True, text=True)
         if r.returncode != 0:
+            # the tree moved on (later fix: commits): merge the change into the current source
+            subprocess.run('git checkout -q -- . && git clean -fdq', cwd=wt, shell=True)
+            r = subprocess.run(['git', 'apply', '--3way', os.path.join(ROOT, 'seeded', n, 'patch.diff')], cwd=wt, capture_output=True, text=True)
+            subprocess.run('git reset -q', cwd=wt, shell=True)
+        if r.returncode != 0:
             res = {'status': 'patch does not apply to the current /repo HEAD', 'harness_rev': rev}
         else:
             env = dict(os.environ, VERIF_HARNESS=snap, VERIF_REPO=wt, VERIF_ALT_TARGET='/tmp/verif-alt-target-reeval%d' % slot, VERIF_EVIDENCE_DIR='/tmp/verif-alt-evidence-reeval%d' % slot)
